@@ -21,20 +21,19 @@ CkSetups(k) ==
   \cup { <<LoadOp(<<k>>), CNewOp, CSetKeyOp(a, 0)>> : a \in {"none", MatchAlg(k)} }
 CkWithCb(k) == { s \o <<CSetCbOp(p)>> : s \in CkSetups(k), p \in Progs(k) } \cup CkSetups(k)
 
-HdrAlgsFor(k) == {"none", "None", "NONE", MatchAlg(k), NONE, "#null", "#int", "#bool", "#arr", "#obj", "#real", "none ", ""}
+HdrAlgsFor(k) == {"none", "None", "NONE", MatchAlg(k), NONE, "#null", "#int", "#bool", "#arr", "#obj", "#real", "none ", "", "none#0x", "n"}
 SigsFor(k, h) == { EmptySig, Sig("valid", h, k), [Sig("garbage", "HS256", DummyKey) EXCEPT !.cls = "garbage"] }
 Shapes == {"3seg", "2seg", "4seg", "4segempty"}
 TokFor(k, h, sg, sh) == [Tok(h, <<>>, <<>>, sg) EXCEPT !.shape = sh]
 
 \* shapes other than 3 segments only with the plain spellings (the shape dimension is independent of the spelling)
 ShapesFor(h) == IF h \in {"none", NONE} \/ h \in RealAlgs THEN Shapes ELSE {"3seg"}
-CheckerScriptsOK ==
-  UNION { UNION { { s \o <<VerifyOp(TokFor(k, h, sg, sh))>> : s \in CkWithCb(k), sg \in SigsFor(k, h), sh \in ShapesFor(h) }
-                  : h \in HdrAlgsFor(k) }
-          : k \in KeyVariants }
+KH == UNION { { <<k, h>> : h \in HdrAlgsFor(k) } : k \in KeyVariants }
+CheckerFam ==
+  [kh \in KH |-> { s \o <<VerifyOp(TokFor(kh[1], kh[2], sg, sh))>> : s \in CkWithCb(kh[1]), sg \in SigsFor(kh[1], kh[2]), sh \in ShapesFor(kh[2]) }]
 NoKeyScripts ==
   { <<CNewOp, VerifyOp(TokFor(DummyKey, h, sg, sh))>> :
-      h \in {"none", "None", "NONE", "HS256", NONE, "#null", "#int", "#bool", "#arr", "#obj", "#real", "none ", "", "nonee", "non"},
+      h \in {"none", "None", "NONE", "HS256", NONE, "#null", "#int", "#bool", "#arr", "#obj", "#real", "none ", "", "nonee", "non", "none#0x", "none#0HS256", "n"},
       sg \in {EmptySig, Sig("valid", "HS256", DummyKey)}, sh \in Shapes }
   \cup { <<CNewOp, CSetKeyOp("HS256", -1), VerifyOp(TokFor(DummyKey, "none", EmptySig, "3seg"))>> }
 
@@ -48,9 +47,19 @@ BuilderScripts ==
   \cup UNION { { s \o <<BSetCbOp(p), GenerateOp(0)>> : s \in BdSetups(k), p \in Progs(k) } : k \in KeyVariants }
   \cup { <<BNewOp, GenerateOp(0)>>, <<BNewOp, BSetCbOp(<<>>), GenerateOp(0)>>, <<BNewOp, BSetCbOp(<<CbAlg("none")>>), GenerateOp(0)>> }
 
-C03Scripts == CheckerScriptsOK \cup NoKeyScripts \cup BuilderScripts
+\* the callback's life cycle: a key that arrives through the callback stays in force across a context-only
+\* update, and goes away with the callback (setcb(NULL, NULL))
+KeyProgs(k) == { <<CbKey(0)>>, <<CbKey(0), CbAlg(MatchAlg(k))>> }
+CbLife(set, off, ctx) == { <<set, ctx>>, <<ctx>>, <<set, off>>, <<set, off, ctx>>, <<set, ctx, off>>, <<set, ctx, ctx>>, <<ctx, set, ctx>> }
+KP == UNION { { <<k, p>> : p \in KeyProgs(k) } : k \in KeyVariants }
+LifeFamB == [kp \in KP |-> { s \o l \o <<GenerateOp(0)>> : s \in BdSetups(kp[1]), l \in CbLife(BSetCbOp(kp[2]), BSetCbOff, BSetCbCtxOp) }]
+LifeFamC == [kp \in KP |-> { s \o l \o <<VerifyOp(TokFor(kp[1], h, sg, "3seg"))>> :
+                               s \in CkSetups(kp[1]), l \in CbLife(CSetCbOp(kp[2]), CSetCbOff, CSetCbCtxOp),
+                               h \in {"none", MatchAlg(kp[1])}, sg \in {EmptySig, Sig("valid", MatchAlg(kp[1]), kp[1])} }]
+
+\* (families, not their union: see ISpecFam in Interp.tla)
 
 \* non-vacuity on the reference: some unsigned token is accepted, some signed one too
 SomeUnsignedAccepted == ~(obs.k = "Verify" /\ obs.ref = "accept" /\ obs.pt.sigEmpty)
-MCSpec == ISpecWith(C03Scripts)
+MCSpec == ISpecP(InFam(CheckerFam) \/ script \in NoKeyScripts \/ script \in BuilderScripts \/ InFam(LifeFamB) \/ InFam(LifeFamC))
 =============================================================================
